@@ -247,6 +247,8 @@ PROPS['C15'] = {
 }
 
 PROPS['C08'] = {
+    # invariance of the preprocessed tree; that the evaluator is a function of the tree is C01 / C04: the cone is not closed under calls into it
+    'closure': False,
     'units': ['api', 'front', 'lex', 'tree', 'eval', 'ops', 'mark', 'canon'],
     'functions': {'canon': [], 'mark': [], 'eval': [], 'ops': [], 'api': ['parse_and_validate', '_model_check_multiple_formulae_dirty', 'model_check_multiple_formulae_dirty', '_model_check_formula_dirty', 'model_check_formula_dirty',
                           '_model_check_multiple_formulae', 'model_check_multiple_formulae', '_model_check_formula', 'model_check_formula'],
@@ -340,6 +342,8 @@ PROPS['C09'] = {
                 'format!("{}", i32) modelled by the uninterpreted dec_digits_int, assumed injective and free of the character } (axiom_dec_inj, axiom_dec_no_brace)'],
 }
 PROPS['C17'] = {
+    # relative to the library: the cone is NOT closed under calls (the tool calls the same evaluator as the library)
+    'closure': False,
     'units': ['tool', 'api', 'eval', 'ops', 'front', 'lex', 'tree', 'mark', 'canon'],
     'functions': {'tool': None, 'api': [], 'eval': [], 'ops': [], 'front': [], 'lex': [], 'tree': [], 'mark': [], 'canon': []},
     'level_text': ('PARTIAL (evaluation half of the tool, plain mode = no context archive). Proof on analyse_formulae / analyse_formula (src/analysis.rs) that, for every network, every list of '
